@@ -49,3 +49,25 @@ Proof.
   injection H as <- <- <-. eexists. reflexivity.
 Qed.
 Print Assumptions C08_paramdesc.
+
+(* ---------- the whole connection against the executable oracle ---------- *)
+Require Import Wire.RobustFacts Wire.Case Spec.Oracles Spec.OracleFacts Spec.OracleFactsNames.
+
+(* the oracle's rules for format codes agree with the model's, for every list of codes *)
+Theorem C08_param_rule_agrees : forall pf n vals i, n = (i + List.length vals)%nat ->
+  params_ok pf n i vals (tag_params pf i vals) = true.
+Proof. intros pf n vals i. exact (params_tagged_ok pf n vals i). Qed.
+Print Assumptions C08_param_rule_agrees.
+Theorem C08_describe_rule_agrees : forall s rf, describe_ok (sdef_of s) rf (describe_cols (s_cols s) rf) = true.
+Proof. exact describe_cols_ok. Qed.
+Print Assumptions C08_describe_rule_agrees.
+
+(* and the whole connection passes the oracle: every execution receives exactly the
+   values, NULLs and format tags of the Bind its portal came from; every Describe
+   announces the declared parameter types and the result formats of that Bind *)
+Theorem C08_model_satisfies_oracle : forall sc,
+  case_nocopy sc = true ->
+  (forall v after rest, start (cfg_of_case sc) (sc_raw sc) = Some (v, after, rest) -> v <> version_ssl) ->
+  oracle_names sc (run_case sc) = true.
+Proof. exact oracle_names_model. Qed.
+Print Assumptions C08_model_satisfies_oracle.
